@@ -245,10 +245,12 @@ func runAppend(in input) vh.Result {
 		}(t)
 	}
 	wg.Wait()
-	finalOK := stop(0, 10*time.Second)
+	finalOK := stop(0, 15*time.Second)
 	waiters.Wait()
 	final := true
-	_ = finalOK
+	if !finalOK {
+		panic("the final Group.Stop without a deadline did not return: admitted appends are stuck")
+	}
 	return vh.Result{
 		Coq: rec.caseTerm(1, final),
 		Obs: map[string]any{"tasks": int(nextTask.Load()), "post_commit_calls": pa.calls.Load(),
